@@ -386,8 +386,8 @@ func vc12CoqCase(in *c12h.Input, r *c12h.Result) (string, bool) {
 
 func TestVerif_C12(t *testing.T) {
 	c12h.Run(t, &c12h.Part{
-		Name: "indexes",
-		Rule: "indexes.OpenWithReader_{SlotToCid,SigToCid,CidToOffsetAndSize,PubkeyToOffsetAndSize} + Get on index files with edited metadata / mutated bytes: no panic, allocation <= 8*len+512KiB, no hang; class allowed by the Coq model of the 8-byte epoch value",
+		Name:  "indexes",
+		Rule:  "indexes.OpenWithReader_{SlotToCid,SigToCid,CidToOffsetAndSize,PubkeyToOffsetAndSize} + Get on index files with edited metadata / mutated bytes: no panic, allocation <= 8*len+512KiB, no hang; class allowed by the Coq model of the 8-byte epoch value",
 		Seeds: vc12Seeds, Gen: vc12Gen, Exec: vc12Exec, Budget: vc12Budget, Witnesses: vc12Witnesses,
 		CoqImports: []string{"YF.C12_Check"}, CoqType: "meta_case",
 		CoqChecker: func(f map[string]bool) string { return "(check_meta " + vh.CoqBool(f["g_meta_u64"]) + ")" },
